@@ -64,8 +64,10 @@ pub fn ic(n: usize, total: usize) -> f32 {
     if n == 0 || total == 0 {
         return 0.0;
     }
-    let n = n as u16 as f32;
-    let t = total as u16 as f32;
+    // counts are converted exactly (the library goes through u16, which is exact as well; above u16::MAX it
+    // refuses to build, and if it ever did build the formula would still be this one)
+    let n = n as f32;
+    let t = total as f32;
     -((n / t).ln())
 }
 
